@@ -13,6 +13,7 @@
     Format calls.  Every stage is judged as a report on the records added so
     far ([hist_prop_ok]); the model side is Model.LegacyHist.hist_reports. *)
 From Perf Require Import Base.Bytes Base.Sx Base.B64 Base.SxF Model.StatsF Model.Legacy Model.LegacyHist.
+From Perf Require Model.LegacySpec.
 Local Open Scope Z_scope.
 
 (** * decoding *)
@@ -266,6 +267,10 @@ Fixpoint csv_match (norange : bool) (e : list (bool * bytes * option bytes)) (o 
 
 Definition pair_eqb (a b : bytes * bytes) : bool := beq (fst a) (fst b) && beq (snd a) (snd b).
 
+(** label and delta columns only, and only for tables without an empty
+    benchmark name ([of_text_ok]: the text is read back by its first token, and
+    toCSV's treatment of an empty label is not modelled); every other cell text
+    is outside the model: bin/props.d/C17.json modelled_not_verified *)
 Definition fmt_ok (norange : bool) (ts : list table) (f : obs_fmt) : bool :=
   if of_text_ok f then
     list_eqb pair_eqb (text_expected ts) (of_text f)
@@ -331,9 +336,29 @@ Definition hist_corr_ok (o : opts) (sts : list hstage) : bool :=
        (hist_reports (o_split o) empty_coll (hist_ops sts))
        (stage_cases o [] sts).
 
-(** * specification predicates on the observed output *)
+(** * specification predicates on the observed output
+
+    Everything below is computed from the raw input records and the observed
+    output; the model of the code (Model/Legacy.v, Model/StatsF.v) is NOT run to
+    obtain an expectation.  The numbers the property names - R8 quartiles, the
+    1.5 IQR fence, sum/n - are exact rationals (Model/LegacySpec.v) compared
+    under the tolerances stated there.
+
+    [relax] = the judge of KNOWN FINDING C17_binary64_overflow ([known_ok]):
+    the same predicate, except that
+      - a sample on which the code's binary64 fence Q1 - 1.5 IQR .. Q3 + 1.5 IQR
+        is not a pair of finite numbers ([overflow_fence]: the interpolation
+        a + frac*(b-a) or the fence arithmetic left the finite range) may
+        retain any subsequence of its values;
+      - a retained sample on which the incremental mean m += (x-m)/(i+1) meets
+        an infinity or overflows ([overflow_mean], the negation of the exact
+        guard of Properties/C17.v C17_min_le_mean_le_max) may report any mean.
+    Both conditions replay the mechanism on the INPUT values of the cell
+    concerned; every other clause stays in force for that cell and for all
+    other cells, rows and tables. *)
 
 Section Spec.
+  Variable relax : bool.
   Variable c : case.
   Let o := k_opts c.
   (** every (key, value) the input lines carry, in input order *)
@@ -344,20 +369,28 @@ Section Spec.
   Let two : bool := (length configs =? 2)%nat.
   Let alpha : b64 := if b64_eq (o_alpha o) f_zero then f_0_05 else o_alpha o.
 
-  (** the documented statistics of one sample *)
+  (** the mechanism of the known finding, replayed on a cell's input values *)
+  Definition overflow_fence (vals : list b64) : bool :=
+    let '(lo, hi) := fence vals in negb (b64_is_finite lo && b64_is_finite hi).
+  Definition overflow_mean (rv : list b64) : bool :=
+    negb (forallb b64_is_finite rv && mean_no_overflow rv).
+
+  (** the documented statistics of one sample: the retained values are those
+      inside the exact fence (in input order), Min and Max are their extremes,
+      Mean is sum/n (exact, within the stated tolerance) and lies in [Min, Max] *)
   Definition stats_spec (unit : bytes) (vals : list b64) (m : mstat) : bool :=
-    let rv := filter (in_fence (fence vals)) vals in
+    let rv := m_rvalues m in
     beq (m_unit m) unit
     && f64s_same (m_values m) vals
-    && f64s_same (m_rvalues m) rv
+    && LegacySpec.retained_spec vals (relax && overflow_fence vals) rv
     && match rv with
        | [] => b64_is_nan (m_min m) && b64_is_nan (m_mean m) && b64_is_nan (m_max m)
        | _ =>
            existsb (b64_same (m_min m)) rv && forallb (fun x => negb (b64_lt x (m_min m))) rv
            && existsb (b64_same (m_max m)) rv && forallb (fun x => negb (b64_gt x (m_max m))) rv
-           (* Properties/C17.v C17_min_le_mean_le_max: exactly when no difference overflows *)
-           && (if forallb b64_is_finite rv && mean_no_overflow rv
-               then b64_le (m_min m) (m_mean m) && b64_le (m_mean m) (m_max m) else true)
+           && (if relax && overflow_mean rv then true
+               else LegacySpec.mean_value_spec rv (m_mean m)
+                    && b64_le (m_min m) (m_mean m) && b64_le (m_mean m) (m_max m))
        end.
   Definition is_empty_mstat (m : mstat) : bool :=
     is_empty (m_unit m) && is_empty (m_values m) && is_empty (m_rvalues m)
@@ -369,8 +402,25 @@ Section Spec.
     | vals => stats_spec unit vals m
     end.
 
+  (** higher is better for the speed metric: Table.Metric "speed", which is the
+      metric of the unit MB/s (and of a unit itself called "speed", which
+      metricOf leaves as it is: Properties/C17.v C17_change_direction); lower
+      for every other metric, e.g. "x-speed" of the unit x-MB/s *)
   Definition is_speed (unit : bytes) : bool := beq unit (bs "MB/s") || beq unit (bs "speed").
-  Definition f_is_neg (x : b64) : bool := b64_lt x f_zero.
+
+  (** the reason or the p-value with the retained sample sizes: the note names
+      them; its punctuation is not the property's business *)
+  Definition note_spec (e : terr) (p : b64) (n1 n2 : nat) (note : bytes) : bool :=
+    match e with
+    | ENone =>
+        if b64_eq p (b64_of_Z (-1)) then is_empty note     (* NoDeltaTest: no test, nothing to report *)
+        else contains note (bs "p=" ++ fmt_f false 3 p)
+             && contains note (bs "n=" ++ dec_of_nat n1 ++ bs "+" ++ dec_of_nat n2)
+    | EStatsZeroVariance => contains note (bs "zero variance")
+    | EStatsSampleSize => contains note (bs "too few samples")
+    | EStatsSamplesEqual => contains note (bs "all equal")
+    | EOther msg => contains note msg
+    end.
 
   (** old/new columns of a compared row *)
   Definition delta_spec (unit : bytes) (r : row) : bool :=
@@ -382,31 +432,32 @@ Section Spec.
         Bool.eqb shown significant
         && (if significant then
               if b64_eq (m_mean mn) (m_mean mo)
-              then beq (w_delta r) (bs "0.00%") && (w_change r =? 0) && b64_same (w_pct r) f_zero
+              then beq (w_delta r) (bs "0.00%") && (w_change r =? 0) && b64_eq (w_pct r) f_zero
               else
                 let pct := b64_mul (b64_sub (b64_div (m_mean mn) (m_mean mo)) b64_one) (b64_of_Z 100) in
                 b64_same (w_pct r) pct
                 && beq (w_delta r) (fmt_f true 2 pct ++ bs "%")
-                && (w_change r =? (if Bool.eqb (f_is_neg pct) (is_speed unit) then -1 else 1))
-            else (w_change r =? 0) && b64_same (w_pct r) f_zero)
-        && beq (w_note r)
-               match e with
-               | ENone =>
-                   if b64_eq p (b64_of_Z (-1)) then []
-                   else bs "(p=" ++ fmt_f false 3 p ++ bs " n=" ++ dec_of_nat (length (m_rvalues mo))
-                        ++ bs "+" ++ dec_of_nat (length (m_rvalues mn)) ++ bs ")"
-               | EStatsZeroVariance => bs "(zero variance)"
-               | EStatsSampleSize => bs "(too few samples)"
-               | EStatsSamplesEqual => bs "(all equal)"
-               | EOther msg => bs "(" ++ msg ++ bs ")"
-               end
+                (* the metric's better direction, decided on the MEANS: an
+                   improvement is a higher mean for speed, a lower mean
+                   otherwise, whatever their signs (the sign of pct says the
+                   opposite when the old mean is negative); a NaN mean is
+                   neither higher nor lower: either flag is accepted *)
+                && (if b64_is_nan (m_mean mn) || b64_is_nan (m_mean mo)
+                    then (w_change r =? 1) || (w_change r =? -1)
+                    else w_change r =? (if (if is_speed unit then b64_lt (m_mean mo) (m_mean mn)
+                                             else b64_lt (m_mean mn) (m_mean mo)) then 1 else -1))
+            else (w_change r =? 0) && b64_eq (w_pct r) f_zero)
+        && note_spec e p (length (m_rvalues mo)) (length (m_rvalues mn)) (w_note r)
     | _ => false
     end.
 
   Definition plain_spec (r : row) : bool :=
-    is_empty (w_delta r) && is_empty (w_note r) && (w_change r =? 0) && b64_same (w_pct r) f_zero.
+    is_empty (w_delta r) && is_empty (w_note r) && (w_change r =? 0) && b64_eq (w_pct r) f_zero.
 
-  (** the (group, benchmark) labels a unit's table must have, in first-appearance order *)
+  (** the (group, benchmark) labels a unit's table must have, in first-appearance order.
+      With two configurations a benchmark that one of them lacks has no row
+      (benchstat's documented old/new table: table.go "If one is missing, omit
+      row entirely"); its statistics stay available in Collection.Metrics. *)
   Definition present (unit g b cf : bytes) : bool := negb (is_empty (values_of recs (mkKey cf g b unit))).
   Definition all_labels : list (bytes * bytes) :=
     concat (map (fun g => map (fun b => (g, b)) (benches_of_spec recs g)) groups).
@@ -425,7 +476,9 @@ Section Spec.
     (if (1 <? length groups)%nat then w_group r else hd [] groups, w_bench r).
 
   (** rows in the requested order: a stable sorted arrangement of the
-      first-appearance rows *)
+      first-appearance rows.  A NaN ByDelta key (only from NaN or infinite
+      means) is not ordered against anything: "sorted" then constrains the
+      neighbours that do compare, nothing more. *)
   Fixpoint strictly_increasing (l : list nat) : bool :=
     match l with
     | a :: (b :: _) as l' => (a <? b)%nat && strictly_increasing l'
@@ -473,26 +526,55 @@ Section Spec.
         Z.abs (A - B) * 10 ^ 9 <=? n * B
     | _, _ => false
     end.
+  (** positive normal values below 2^1022: outside that range math.Log (subnormal
+      arguments) and math.Exp (+Inf from about 709.65 although e^709.65 = 1.58e308
+      is finite) of Go's library are inaccurate; the same restriction as C12's
+      geomean tolerance (Corr/RunC12.v) *)
   Definition all_pos_finite (l : list b64) : bool :=
-    forallb (fun x => match x with S754_finite false _ _ => true | _ => false end) l.
+    forallb (fun x => match x with
+                      | S754_finite false m e => (-1022 <=? Z.log2 (Z.pos m) + e) && (Z.log2 (Z.pos m) + e <? 1022)
+                      | _ => false end) l.
 
-  Definition means_spec (unit cf : bytes) : list b64 :=
+  (** the non-zero means of configuration [cf] (column [i]) for this unit: over
+      EVERY benchmark of the collection with values under (cf, unit), in
+      first-appearance order - the statement says "the geometric mean of the
+      non-zero means" and does not restrict it to the rows the table shows, so
+      a benchmark an old-new table omits (one configuration lacks it) takes
+      part in the column of the configuration that has it (audit item 3).
+      The mean of a benchmark that has a row is the OBSERVED mean of that row's
+      cell (judged by [row_spec]); the mean of an omitted benchmark is reported
+      nowhere in the tables, so it is taken from the model of computeStats
+      (mean_f of the values inside [fence]: modelled, see props.d). *)
+  Fixpoint find_row (lbl : bytes * bytes) (rows : list row) : option row :=
+    match rows with
+    | [] => None
+    | r :: rows' => if label_eqb (row_label r) lbl then Some r else find_row lbl rows'
+    end.
+  Definition cell_mean (rows : list row) (i : nat) (lbl : bytes * bytes) (vals : list b64) : b64 :=
+    match find_row lbl rows with
+    | Some r => m_mean (nth i (w_metrics r) empty_mstat)
+    | None => mean_f (filter (in_fence (fence vals)) vals)
+    end.
+  Definition col_means (unit : bytes) (rows : list row) (i : nat) : list b64 :=
+    let cf := nth i configs [] in
     concat (map (fun '(g, b) =>
       match values_of recs (mkKey cf g b unit) with
       | [] => []
-      | vals => let m := mean_f (filter (in_fence (fence vals)) vals) in
+      | vals => let m := cell_mean rows i (g, b) vals in
                 if b64_eq m f_zero then [] else [m]
       end) all_labels).
 
+  (** the geomean cell: the geometric mean of positive finite means, against
+      their exact product.  With a negative mean no geometric mean exists and
+      with a NaN or infinite mean (only from infinite samples or the known
+      overflow finding) none is computable: nothing is demanded of the value;
+      nor for means outside [2^-1022, 2^1022) ([all_pos_finite]). *)
   Definition geomean_cell_spec (unit : bytes) (means : list b64) (m : mstat) : bool :=
     match means with
     | [] => is_empty_mstat m
     | _ =>
         beq (m_unit m) unit && is_empty (m_values m) && is_empty (m_rvalues m)
-        && b64_same (m_min m) f_zero && b64_same (m_max m) f_zero
-        && (if existsb (fun x => b64_le x f_zero) means then b64_is_nan (m_mean m)
-            else if all_pos_finite means then geomean_close (m_mean m) means
-            else true)
+        && (if all_pos_finite means then geomean_close (m_mean m) means else true)
     end.
 
   Fixpoint forallb2 {A B} (f : A -> B -> bool) (a : list A) (b : list B) : bool :=
@@ -502,8 +584,8 @@ Section Spec.
     | _, _ => false
     end.
 
-  Definition geomean_row_spec (unit : bytes) (r : row) : bool :=
-    let per := map (means_spec unit) configs in
+  Definition geomean_row_spec (unit : bytes) (rows : list row) (r : row) : bool :=
+    let per := map (col_means unit rows) (seq 0 (length configs)) in
     is_empty (w_group r) && is_empty (w_note r) && (w_change r =? 0)
     && forallb2 (geomean_cell_spec unit) per (w_metrics r)
     && if two && forallb (fun l => negb (is_empty l)) per then
@@ -513,9 +595,10 @@ Section Spec.
              b64_same (w_pct r) pct && beq (w_delta r) (fmt_f true 2 pct ++ bs "%")
          | _ => false
          end
-       else is_empty (w_delta r) && b64_same (w_pct r) f_zero.
-  Definition geomean_wanted (unit : bytes) : bool :=
-    o_geomean o && existsb (fun cf => (1 <? length (means_spec unit cf))%nat) configs.
+       else is_empty (w_delta r) && b64_eq (w_pct r) f_zero.
+  (** a geomean of a single benchmark is that benchmark's mean and is not shown *)
+  Definition geomean_wanted (unit : bytes) (rows : list row) : bool :=
+    o_geomean o && existsb (fun i => (1 <? length (col_means unit rows i))%nat) (seq 0 (length configs)).
 
   Definition s_geo : bytes := bs "[Geo mean]".
   (** split a table's rows into benchmark rows and the optional geomean row *)
@@ -539,8 +622,8 @@ Section Spec.
     && forallb (row_spec unit) rows
     && rows_order_spec unit rows
     && match geo with
-       | Some r => geomean_wanted unit && geomean_row_spec unit r
-       | None => negb (geomean_wanted unit)
+       | Some r => geomean_wanted unit rows && geomean_row_spec unit rows r
+       | None => negb (geomean_wanted unit rows)
        end.
 
   (** tables: one per unit that has rows, in first-appearance order of units *)
@@ -551,26 +634,32 @@ Section Spec.
     blist_eqb (oc_configs oc) configs && blist_eqb (oc_groups oc) groups && blist_eqb (oc_units oc) units
     && list_eqb bm_eqb (oc_benchmarks oc) (map (fun g => (g, benches_of_spec recs g)) groups).
 
-  Definition prop_ok : bool :=
+  Definition prop_gen : bool :=
     negb (k_panic c) && coll_spec (k_coll c) && tables_spec (k_tables c)
     && fmt_ok (o_norange o) (k_tables c) (k_fmt c).
 End Spec.
 
+Definition prop_ok (c : case) : bool := prop_gen false c.
+(** the judge of known finding C17_binary64_overflow *)
+Definition known_ok (c : case) : bool := prop_gen true c.
+
 (** a history: every Tables() call is judged as a report on the records added
     so far, and after the Format calls the collection still is the one those
     records prescribe and the tables are unchanged *)
-Definition stage_prop_ok (cs : case * hstage) : bool :=
+Definition stage_prop_gen (relax : bool) (cs : case * hstage) : bool :=
   let '(c, st) := cs in
-  prop_ok c
+  prop_gen relax c
   && coll_spec c (hs_post_coll st)
   && list_eqb table_eqb (hs_post_tables st) (k_tables c).
 
-Definition hist_prop_ok (o : opts) (sts : list hstage) : bool :=
-  forallb stage_prop_ok (stage_cases o [] sts).
+Definition hist_prop_gen (relax : bool) (o : opts) (sts : list hstage) : bool :=
+  forallb (stage_prop_gen relax) (stage_cases o [] sts).
+Definition hist_prop_ok := hist_prop_gen false.
+Definition hist_known_ok := hist_prop_gen true.
 
 Definition run_case (s : sx) : N :=
   match decode_any s with
-  | Some (KOne c) => code_of (corr_ok c) (prop_ok c)
-  | Some (KHist o sts) => code_of (hist_corr_ok o sts) (hist_prop_ok o sts)
+  | Some (KOne c) => code_of3 (corr_ok c) (prop_ok c) (known_ok c)
+  | Some (KHist o sts) => code_of3 (hist_corr_ok o sts) (hist_prop_ok o sts) (hist_known_ok o sts)
   | None => code_undecodable
   end.
